@@ -13,7 +13,7 @@ DRIVER = 'MainGen.lean'
 REQUIRED_THEOREMS = ['Usid.C14.generated_assign_eq_hand', 'Usid.C14.generated_window_eq_hand',
                      'Usid.C14.ranges_partition', 'Usid.C14.ranges_cover_disjoint',
                      'Usid.C14.ranks_concat_eq_pending', 'Usid.C14.rank_batches', 'Usid.C14.socket_master']
-RULE = ('random (N positions up to 40, completion mask, rank count R, batch limit - common to all ranks or DIFFERENT per rank, as on '
+RULE = ('[also: lazy reading, verbose=True] random (N positions up to 40, completion mask, rank count R, batch limit - common to all ranks or DIFFERENT per rank, as on '
         'sockets with different memory); the real compute() is run once per '
         'simulated rank on its own copy of the file; non-trivial = at least two ranks or a non-contiguous mask; '
         'plus processor-name lists for group_ranks_by_socket run against a fake MPI object')
@@ -53,6 +53,8 @@ def generate(seed, tier):
         if rng.random() < 0.35:
             # ranks on sockets with different memory get different batch limits (each rank derives its own)
             case['batches'] = [rng.randint(1, max(1, n // 2)) for _ in range(size)]
+        case['lazy'] = rng.random() < 0.3
+        case['verbose'] = rng.random() < 0.15
         cases.append(case)
     if True:
         # many pending positions per rank and small, differing batch limits
@@ -119,7 +121,10 @@ def run_impl(inp, work):
         tr = procs.Tracer()
         with h5py.File(path, 'r+') as f:
             with quiet(), tr.installed():
-                p = RowProc(f['G/main'], parms={'a': 1}, cores=1)
+                pkw = {'lazy': True} if inp.get('lazy') else {}
+                if inp.get('verbose'):
+                    pkw['verbose'] = True
+                p = RowProc(f['G/main'], parms={'a': 1}, cores=1, **pkw)
                 p._max_pos_per_read = inp['batches'][r] if inp.get('batches') else inp['batch']
                 p.mpi_rank, p.mpi_size = r, inp['size']
                 grp = p.compute()
